@@ -422,24 +422,29 @@ inductive Behaviour
   | closeOrderly (d : Nat)
   /-- complete the handshake, then swallow everything the client sends -/
   | mute
+  /-- complete the handshake, swallow everything the client sends, cut the TCP connection after
+      `d` ms (`d` below the channel time-out): a stream request in flight fails with
+      `penguin_mux::Error::Closed` -/
+  | muteCut (d : Nat)
   /-- complete the handshake and keep relaying -/
   | healthy
   deriving DecidableEq, Repr
 
-/-- A script step: the behaviour for this attempt, and optionally a local connection (identified
-    by a number) that the harness opens during this attempt (for a failed handshake: before the
-    next attempt). -/
+/-- A script step: the behaviour for this attempt, and the local connections (identified by
+    numbers, each on a listener of its own) that the harness opens during this attempt (for a failed
+    handshake: before the next attempt), in the order their stream commands reach the channel. -/
 structure Step where
   beh : Behaviour
-  localReq : Option Req
+  localReqs : List Req
   deriving DecidableEq, Repr
 
 /-- `n` chances for the main loop to take a command from the channel, each answered. -/
 def serveAll (n : Nat) : List ConnEvent := List.replicate n (.serveNext .ok)
 
-/-- The attempt a step stands for; `n` bounds the number of requests that can be pending. -/
+/-- The attempt a step stands for; `n` bounds the number of requests that can be pending (the main
+    loop gets that many chances to take a command from the channel). -/
 def Step.attempt (cfg : Config) (n : Nat) (s : Step) : Attempt :=
-  let arr := s.localReq.toList
+  let arr := s.localReqs
   let arrE := arr.map ConnEvent.arrive
   match s.beh with
   | .refuse => .down (.tungstenite (.protocol .handshakeIncomplete)) arr
@@ -457,10 +462,16 @@ def Step.attempt (cfg : Config) (n : Nat) (s : Step) : Attempt :=
     match cfg.channelTimeout with
     | some _ => .up .timeout (arrE ++ [.serveNext .timeout])
     | none => .up .never (arrE ++ [.serveNext .never])
+  | .muteCut _ =>
+    .up (.muxErr .closed) (arrE ++ [.serveNext (.muxErr .closed),
+      .muxEnded (some (.webSocket (some (.protocol .resetWithoutClosingHandshake))))])
+
+/-- Number of local connections in the whole script: no more than that many can ever be waiting. -/
+def requestCount (steps : List Step) : Nat := (steps.map (·.localReqs.length)).sum
 
 def runScenario (cfg : Config) (steps : List Step) : Run :=
   clientRun (clientBackoff cfg.maxRetryCount cfg.maxRetryInterval) {}
-    (steps.map fun s => (s.attempt cfg steps.length, false))
+    (steps.map fun s => (s.attempt cfg (requestCount steps), false))
 
 /-! ### Text forms for the driver -/
 
@@ -476,17 +487,17 @@ def parseBeh (s : String) : Option Behaviour :=
   | ["healthy"] => some .healthy
   | ["abrupt", d] => d.toNat?.map .closeAbrupt
   | ["orderly", d] => d.toNat?.map .closeOrderly
+  | ["mutecut", d] => d.toNat?.map .muteCut
   | _ => none
 
-/-- `<behaviour>` or `<behaviour>+<request number>`. -/
+/-- `<behaviour>` followed by any number of `+<request number>`. -/
 def parseStep (s : String) : Option Step :=
   match s.splitOn "+" with
-  | [b] => (parseBeh b).map fun b => { beh := b, localReq := none }
-  | [b, r] => do
+  | b :: rs => do
     let b ← parseBeh b
-    let r ← r.toNat?
-    pure { beh := b, localReq := some r }
-  | _ => none
+    let rs ← rs.mapM String.toNat?
+    pure { beh := b, localReqs := rs }
+  | [] => none
 
 def parseIo (s : String) : Option IoKind := IoKind.all.find? (·.name == s)
 def parseProto (s : String) : Option WsProto := WsProto.all.find? (·.name == s)
